@@ -45,19 +45,16 @@ Fixpoint set_nth {T} (d : nat) (x : T) (l : list T) : list T :=
   | y :: l', S d' => y :: set_nth d' x l'
   end.
 
-Fixpoint sum_upto (n : nat) (f : nat -> R) : R :=
-  match n with 0 => rO | S k => radd (sum_upto k f) (f k) end.
-
 (* solvers.py:32-37:  diag = sum_d reduce(np.kron, [ones(n_0),..,lam_d,..,ones(n_{dim-1})]) *)
 Definition fastdiag_diag_code (ns : list nat) (lams : list (nat -> R)) (c : nat) : R :=
-  sum_upto (length ns) (fun d =>
+  sumn R rO radd (length ns) (fun d =>
     ment R (kron_reduce (set_nth d (colvec (nth d ns 0) (nth d lams (fun _ => rO)))
                                  (map (fun n => colvec n (ones n)) ns))) c 0).
 
 (* the generalized Laplacian the solver inverts (docstring of fastdiag_solver; test_solvers.py):
    sum_d reduce(np.kron, [M_0,..,K_d,..,M_{dim-1}]) *)
 Definition fastdiag_lap_code (Ks Ms : list (mat R)) (i j : nat) : R :=
-  sum_upto (length Ms) (fun d =>
+  sumn R rO radd (length Ms) (fun d =>
     ment R (kron_reduce (set_nth d (nth d Ks (mkmat R 0 0 (fun _ _ => rO))) Ms)) i j).
 
 End Model2.
